@@ -18,9 +18,12 @@ REGISTRY = {
     "C04": ("checks_core", "check_c04"),
     "C05": ("checks_sess", "check_c05"),
     "C06": ("checks_sess", "check_c06"),
+    "C08": ("checks_crypt", "check_c08"),
     "C09": ("checks_sess", "check_c09"),
     "C10": ("checks_sess", "check_c10"),
     "C13": ("checks_wait", "check_c13"),
+    "C11": ("checks_list", "check_c11"),
+    "C14": ("checks_race", "check_c14"),
     "C15": ("checks_sess", "check_c15"),
     "C17": ("checks_sched", "check_c17"),
     "C19": ("checks_sess", "check_c19"),
